@@ -27,6 +27,9 @@ func (c *c10) Cases(tier string, seed int64) []core.Case {
 	// non-saved entries
 	for _, n := range []int{250, 255, 256, 257, 300} {
 		cs = append(cs, core.MkCase(fmt.Sprintf("reader-many-entries-%d", n), p1Params{r.Int63(), fmt.Sprintf("reader-many:%d", n)}))
+		if n >= 255 && n <= 257 {
+			cs = append(cs, core.MkCase(fmt.Sprintf("reader-255-saved-of-%d", maxi(n, 255)), p1Params{r.Int63(), fmt.Sprintf("reader-full:%d", maxi(n, 255))}))
+		}
 	}
 	m := map[string]int{"quick": 60, "thorough": 4000}[tier]
 	for i := 0; i < m; i++ {
@@ -59,7 +62,12 @@ func (c *c10) Run(cs core.Case) core.Result {
 	case len(p.Kind) > 12 && p.Kind[:12] == "reader-many:":
 		var total int
 		fmt.Sscanf(p.Kind, "reader-many:%d", &total)
-		c.runReaderMany(r, rng, total)
+		c.runReaderMany(r, rng, total, 250, 2)
+	case len(p.Kind) > 12 && p.Kind[:12] == "reader-full:":
+		// the format's maximum: 255 saved files and one volume (256 shards)
+		var total int
+		fmt.Sscanf(p.Kind, "reader-full:%d", &total)
+		c.runReaderMany(r, rng, total, 255, 1)
 	default:
 		total := 1 + rng.Intn(10)
 		mask := 1 + rng.Intn(1<<uint(total)-1)
@@ -242,17 +250,27 @@ func (c *c10) runReader(r *core.R, rng *rand.Rand, total, savedMask int, allDama
 
 // runReaderMany: a reference-written index with `total` entries of which
 // at most 250 are saved (so that parity volumes fit the 256-shard limit).
-func (c *c10) runReaderMany(r *core.R, rng *rand.Rand, total int) {
+func (c *c10) runReaderMany(r *core.R, rng *rand.Rand, total, maxSaved, nv int) {
 	var files []scen.File
 	var in []par1rw.InFile
 	var savedIdx []int
 	nSaved := 0
+	unsaved := map[int]bool{}
+	if maxSaved == 255 && total > 255 {
+		for _, i := range rng.Perm(total)[:total-255] {
+			unsaved[i] = true
+		}
+	}
 	for i := 0; i < total; i++ {
 		f := scen.File{Name: fmt.Sprintf("m%03d.bin", i), Data: scen.GenData(rng, "random", 1+rng.Intn(40), 16)}
 		files = append(files, f)
-		sv := nSaved < 250 && (total <= 250 || rng.Intn(total) < 250)
+		sv := nSaved < maxSaved && (total <= maxSaved || rng.Intn(total) < maxSaved)
 		if i >= total-3 && nSaved < 3 {
 			sv = true
+		}
+		if maxSaved == 255 {
+			// exactly 255 saved; the surplus entries (not saved) are spread randomly
+			sv = !unsaved[i]
 		}
 		if sv {
 			nSaved++
@@ -260,7 +278,6 @@ func (c *c10) runReaderMany(r *core.R, rng *rand.Rand, total int) {
 		}
 		in = append(in, par1rw.InFile{Name: f.Name, Data: f.Data, Saved: sv})
 	}
-	nv := 2
 	e, err := newP1Env(files, nv, false)
 	if e != nil {
 		defer e.close()
@@ -276,8 +293,12 @@ func (c *c10) runReaderMany(r *core.R, rng *rand.Rand, total int) {
 	}
 	p1Judge(r, e, vols, p1Damage{bad: map[int]string{}, lostVols: map[int]bool{}}, rng, savedIdx, true)
 	p1Judge(r, e, vols, p1Damage{bad: map[int]string{savedIdx[0]: "delete"}, lostVols: map[int]bool{}}, rng, savedIdx, false)
-	p1Judge(r, e, vols, p1Damage{bad: map[int]string{savedIdx[len(savedIdx)-1]: "flip", savedIdx[len(savedIdx)/2]: "delete"}, lostVols: map[int]bool{}}, rng, savedIdx, true)
-	r.Key("reader-many|n=%d|saved=%d", total, nSaved)
+	if nv >= 2 {
+		p1Judge(r, e, vols, p1Damage{bad: map[int]string{savedIdx[len(savedIdx)-1]: "flip", savedIdx[len(savedIdx)/2]: "delete"}, lostVols: map[int]bool{}}, rng, savedIdx, true)
+	} else {
+		p1Judge(r, e, vols, p1Damage{bad: map[int]string{savedIdx[len(savedIdx)-1]: "flip"}, lostVols: map[int]bool{}}, rng, savedIdx, true)
+	}
+	r.Key("reader-many|n=%d|saved=%d|v=%d", total, nSaved, nv)
 	r.Count("reference_written_sets", 1)
 	r.Sample(map[string]interface{}{"direction": "reader", "entries": total, "saved": nSaved, "volumes": nv})
 }
